@@ -1478,12 +1478,24 @@ package trzsz
 
 //@ # files are deleted on the client only if stop-and-delete was chosen (as read by this call), and when
 //@ # something was deleted the peer is told with a fail line that names it
+//@ # draining the input touches only the count of chunks taken from the channel
+//@ func trzszBuffer.drainBuffer
+//@   assigns recvd
+//@ end
+//@ func trzszTransfer.cleanInput
+//@   assigns recvd
+//@ end
+
 //@ func trzszTransfer.clientError
+//@   requires [C09] createdIn(t)
+//@   requires [C10] createdMade(t)
 //@   before trzszTransfer.deleteCreatedFiles assert [C10] result_of("atomic.Bool.Load", 0, 0)
 //@   before trzszTransfer.sendString#1 assert [C10] len(result_of("trzszTransfer.deleteCreatedFiles", 0, 0)) > 0 && result_of("atomic.Bool.Load", 0, 0)
 //@ end
 
 //@ # files are deleted on the server only when the error is the peer's "Stopped and deleted"
 //@ func trzszTransfer.serverError
+//@   requires [C09] createdIn(t)
+//@   requires [C10] createdMade(t)
 //@   before trzszTransfer.deleteCreatedFiles assert [C10] result_of("trzszError.isStopAndDelete", 0, 0)
 //@ end
